@@ -44,7 +44,7 @@ fn after_eof_with(s: cfdp_daemon::verif::Segments, b: [u64; 4], k: usize, n: u64
         total += b[2 * i + 1] - b[2 * i];
         i += 1;
     }
-    p.saved_segments = s;
+    set_field(&mut p.saved_segments, s);
     p.received_file_size = total;
     p.nak_received_file_size = total;
     let has_md: bool = match md {
@@ -220,7 +220,7 @@ fn eof_then_nak(k: usize, queued: bool, sym: bool) {
     } else {
         (cfdp_daemon::verif::Segments::new(), [0, 0, 0, 0])
     };
-    p.saved_segments = s;
+    set_field(&mut p.saved_segments, s);
     let heldb = if k == 1 { b[1] - b[0] } else { 0 };
     p.received_file_size = heldb;
     p.nak_received_file_size = heldb;
@@ -264,10 +264,10 @@ th!(c08_q_send_naks_wellformed, 8, {
     let (a1, e1, a2, e2): (u64, u64, u64, u64) = (kani::any(), kani::any(), kani::any(), kani::any());
     kani::assume(a1 < e1 && e1 <= a2 && a2 < e2 && e2 <= n);
     p.metadata = Some(metadata(true, n, false, ChecksumType::Modular, vec![]));
-    p.naks = VecDeque::from(vec![
+    set_field(&mut p.naks, VecDeque::from(vec![
         SegmentRequestForm { start_offset: a1, end_offset: e1 },
         SegmentRequestForm { start_offset: a2, end_offset: e2 },
-    ]);
+    ]));
     let mut t = RecvTransaction::verif_from_parts(p);
     let out = recv_send(&mut t, &ch);
     match &out {
@@ -329,7 +329,7 @@ fn immediate_new_gap(delayed: bool) {
     if delayed {
         // the delayed request is pushed under a symbolic guard (number of gaps): give the queue its buffer up front,
         // growing a VecDeque on a symbolic path runs CBMC out of memory
-        p.naks = VecDeque::with_capacity(4);
+        set_field(&mut p.naks, VecDeque::with_capacity(4));
     }
     let mut t = RecvTransaction::verif_from_parts(p);
     let off: u64 = kani::any();
@@ -390,15 +390,16 @@ fn delayed_gap_fires(filled: bool) {
     let (a, c): (u64, u64) = (kani::any(), kani::any());
     kani::assume(0 < a && a < c && c < off);
     // the list is built directly (hook): symbolic merges are C09's subject and cost minutes each
-    p.saved_segments = if filled {
+    let segs = if filled {
         cfdp_daemon::verif::Segments::verif_from(vec![(a, c), (off, off + 1)])
     } else {
         cfdp_daemon::verif::Segments::verif_from(vec![(off, off + 1)])
     };
+    set_field(&mut p.saved_segments, segs);
     p.received_file_size = 1 + if filled { c - a } else { 0 };
-    p.delayed_nack_timers = vec![(counter(2, 1, NOW, 0, false, false), 0, off)];
+    set_field(&mut p.delayed_nack_timers, vec![(counter(2, 1, NOW, 0, false, false), 0, off)]);
     // the queue gets its buffer up front (rule 8: the pushes below depend on the symbolic number of gaps)
-    p.naks = VecDeque::with_capacity(4);
+    set_field(&mut p.naks, VecDeque::with_capacity(4));
     let mut t = RecvTransaction::verif_from_parts(p);
     verif::set_now(Duration::from_secs(NOW + 2));
     t.handle_timeout().unwrap();
@@ -434,12 +435,12 @@ th!(c08_q_split_over_pdus, 8, {
     let mut p = t0.verif_into_parts();
     p.metadata = None;
     p.file_size = Some(100);
-    p.naks = VecDeque::from(vec![
+    set_field(&mut p.naks, VecDeque::from(vec![
         SegmentRequestForm { start_offset: 0, end_offset: 0 },
         SegmentRequestForm { start_offset: 0, end_offset: 10 },
         SegmentRequestForm { start_offset: 20, end_offset: 30 },
         SegmentRequestForm { start_offset: 40, end_offset: 100 },
-    ]);
+    ]));
     let mut t = RecvTransaction::verif_from_parts(p);
     let mut sent = 0;
     let mut reqs = 0;
